@@ -5,9 +5,9 @@ package main
 //                      (JSONEncode), `write` (anything that writes to the response: WriteJSON, a ChunkedWriter's Write,
 //                      http.Error, w.Write). A write under the mutex blocks every other /accessories request for as
 //                      long as the peer does not read (F57).
-//   bodyReaders      — for every endpoint that parses a TLV8 request body (hap/endpoint/*.go): what is handed to
-//                      util.NewTLV8ContainerFromReader — `limited <n>` for http.MaxBytesReader(_, request.Body, <const n>),
-//                      `unlimited` for anything else (F59: each TLV8 item costs a multiple of its wire size in memory).
+//   bodyReaders      — every use of a request's `Body` in the handlers of hap/endpoint and hap/http: `limited <n>` when it
+//                      is the argument of http.MaxBytesReader(_, <request>.Body, <const n>), `unlimited` for anything else
+//                      (F59: each TLV8 item costs a multiple of its wire size in memory; F68: the JSON endpoints).
 //   newConnectionPath, closePath — hap.NewConnection and (*Connection).Close of hap/connection.go: Lock / Unlock of the
 //                      package-level sessionMutex, `set` / `get` / `delete` of the session in the context, `close` of
 //                      the socket. Comparison and removal in Close must be one step with respect to NewConnection (F56).
@@ -105,57 +105,70 @@ func genSrvLock(e *env) (string, error) {
 	if err != nil {
 		return "", err
 	}
-	// ---- request bodies of the pairing endpoints
+	// ---- request bodies: every use of `<request>.Body` in the handlers of hap/endpoint and hap/http
 	var readers []string
-	files, _ := filepath.Glob(filepath.Join(e.Repo, "hap", "endpoint", "*.go"))
-	var parsed []*ast.File
-	for _, f := range files {
-		if strings.HasSuffix(f, "_test.go") {
-			continue
-		}
-		af, err := parser.ParseFile(fset, f, nil, 0)
-		if err != nil {
-			return "", err
-		}
-		parsed = append(parsed, af)
-	}
-	consts := map[string]string{} // package-level integer constants of package endpoint
-	for _, af := range parsed {
-		for _, d := range af.Decls {
-			gd, ok := d.(*ast.GenDecl)
-			if !ok || gd.Tok != token.CONST {
+	for _, pkg := range []string{"endpoint", "http"} {
+		files, _ := filepath.Glob(filepath.Join(e.Repo, "hap", pkg, "*.go"))
+		var parsed []*ast.File
+		for _, f := range files {
+			if strings.HasSuffix(f, "_test.go") {
 				continue
 			}
-			for _, sp := range gd.Specs {
-				vs := sp.(*ast.ValueSpec)
-				for i, nm := range vs.Names {
-					if i < len(vs.Values) {
-						if tv, err := types.Eval(fset, nil, token.NoPos, exprText(fset, vs.Values[i])); err == nil && tv.Value != nil && tv.Value.Kind() == constant.Int {
-							consts[nm.Name] = tv.Value.ExactString()
+			af, err := parser.ParseFile(fset, f, nil, 0)
+			if err != nil {
+				return "", err
+			}
+			parsed = append(parsed, af)
+		}
+		consts := map[string]string{} // package-level integer constants of the package
+		for _, af := range parsed {
+			for _, d := range af.Decls {
+				gd, ok := d.(*ast.GenDecl)
+				if !ok || gd.Tok != token.CONST {
+					continue
+				}
+				for _, sp := range gd.Specs {
+					vs := sp.(*ast.ValueSpec)
+					for i, nm := range vs.Names {
+						if i < len(vs.Values) {
+							if tv, err := types.Eval(fset, nil, token.NoPos, exprText(fset, vs.Values[i])); err == nil && tv.Value != nil && tv.Value.Kind() == constant.Int {
+								consts[nm.Name] = tv.Value.ExactString()
+							}
 						}
 					}
 				}
 			}
 		}
-	}
-	for _, af := range parsed {
-		name := filepath.Base(fset.Position(af.Pos()).Filename)
-		ast.Inspect(af, func(n ast.Node) bool {
-			call, ok := n.(*ast.CallExpr)
-			if !ok || dotted(call.Fun) != "util.NewTLV8ContainerFromReader" || len(call.Args) != 1 {
-				return true
-			}
-			kind := "unlimited"
-			if in, ok := call.Args[0].(*ast.CallExpr); ok && dotted(in.Fun) == "http.MaxBytesReader" && len(in.Args) == 3 && dotted(in.Args[1]) == "request.Body" {
-				if v, ok := consts[dotted(in.Args[2])]; ok {
-					kind = "limited " + v
-				} else if tv, err := types.Eval(fset, nil, token.NoPos, exprText(fset, in.Args[2])); err == nil && tv.Value != nil {
-					kind = "limited " + tv.Value.ExactString()
+		for _, af := range parsed {
+			name := filepath.Base(fset.Position(af.Pos()).Filename)
+			var stack []ast.Node
+			ast.Inspect(af, func(n ast.Node) bool {
+				if n == nil {
+					stack = stack[:len(stack)-1]
+					return true
 				}
-			}
-			readers = append(readers, name+": "+kind)
-			return true
-		})
+				stack = append(stack, n)
+				sel, ok := n.(*ast.SelectorExpr)
+				if !ok || sel.Sel.Name != "Body" {
+					return true
+				}
+				if id, ok := sel.X.(*ast.Ident); !ok || (id.Name != "request" && id.Name != "req" && id.Name != "r") {
+					return true
+				}
+				kind := "unlimited"
+				if len(stack) >= 2 {
+					if in, ok := stack[len(stack)-2].(*ast.CallExpr); ok && dotted(in.Fun) == "http.MaxBytesReader" && len(in.Args) == 3 && in.Args[1] == ast.Expr(sel) {
+						if v, ok := consts[dotted(in.Args[2])]; ok {
+							kind = "limited " + v
+						} else if tv, err := types.Eval(fset, nil, token.NoPos, exprText(fset, in.Args[2])); err == nil && tv.Value != nil {
+							kind = "limited " + tv.Value.ExactString()
+						}
+					}
+				}
+				readers = append(readers, pkg+"/"+name+": "+kind)
+				return true
+			})
+		}
 	}
 	q := func(l []string) string {
 		var o []string
